@@ -272,7 +272,27 @@ def run(cx, rep):
                 return False
             # iterations over the index signatures: `for (const p of this.<ixf>)` or `this.<ixf>.some/forEach/..((p) => ..)`,
             # in the method itself or in private helpers it calls (seen with arguments substituted)
-            nodes = list(tsast.walk_inl(mod, cname, fn))
+            # own nodes plus the bodies of the local helpers the method calls (arguments substituted); a node of a
+            # helper body counts as lying wherever the call lies
+            nodes = []
+            clone_site = {}
+            def add_nodes(root, via, depth):
+                for x_ in walk(root):
+                    nodes.append(x_)
+                    if via is not None:
+                        clone_site[id(x_)] = via
+                    if depth > 0 and x_["type"] == "CallExpression":
+                        r_ = tsast.resolve_local_call(mod, cname, x_)
+                        if r_ is not None:
+                            body__, _sub = tsast.inline_clone(r_[0], x_)
+                            add_nodes(body__, via if via is not None else x_, depth - 1)
+            add_nodes(fn, None, 2)
+
+            def contains(outer_, site_):
+                if any(x_ is site_ for x_ in walk(outer_)):
+                    return True
+                via = clone_site.get(id(site_))
+                return via is not None and any(x_ is via for x_ in walk(outer_))
             iters = []   # (node that contains the per-signature code, signature variable)
             for x in nodes:
                 if x["type"] == "ForOfStatement" and s(x["right"]) == "this.%s" % ixf and x["left"]["type"] == "VariableDeclaration":
@@ -313,19 +333,19 @@ def run(cx, rep):
                         keys_used.add(s(mc[2][1]))
                 for key in sorted(keys_used):
                     n_ix += 1
-                    ka = ts_common.known_atoms(fn, site)
+                    ka = ts_common.known_atoms(fn, clone_site.get(id(site), site))
                     ok = any(v_ is False and is_declared_test(a_, key) for a_, v_ in ka.items())
                     if not ok:
                         # the key ranges over a filtered list: an enclosing for-of / iteration callback binds it
                         for outer in nodes:
-                            if not any(x is site for x in walk(outer)):
+                            if id(outer) in clone_site or not contains(outer, site):
                                 continue
                             if outer["type"] == "ForOfStatement" and outer["left"]["type"] == "VariableDeclaration" and outer["left"]["declarations"][0]["id"].get("value") == key:
                                 ok = ok or filtered_source(outer["right"])
                             elif outer["type"] == "CallExpression":
                                 mc = method_call(outer)
                                 if mc and mc[1] in ts_common.ITER_METHODS and mc[2] and mc[2][0].get("type") in ("ArrowFunctionExpression", "FunctionExpression") \
-                                        and (ts_common.fn_params(mc[2][0]) or [None])[0] == key and any(x is site for x in walk(mc[2][0])):
+                                        and (ts_common.fn_params(mc[2][0]) or [None])[0] == key and contains(mc[2][0], site):
                                     ok = ok or filtered_source(mc[0])
                     rep.ob("C03.7", "%s.%s/%s" % (cname, mname, key), ok,
                            "%s.%s applies the index-signature validators to key `%s` without knowing that it is not a declared property: a declared property is then also parsed / reported through the index signature (its projection is overwritten)" % (cname, mname, key),
@@ -362,6 +382,9 @@ def run(cx, rep):
     # ---------------------------------------------------------------- C03.11
     rep.rule("C03.11", "no call is handed one argument per element of an input-sized array (spread in call position)")
     ts_common.unbounded_spread_rule(cx, rep, "C03.11", ['validate', 'parseAfterValidation', 'reportDecodeError'])
+    # ---------------------------------------------------------------- C03.12
+    rep.rule("C03.12", "validate() / reportDecodeError() touch their input only where it cannot be null or undefined")
+    null_deref_rule(fam, mod, rep, "C03.12")
     # ---------------------------------------------------------------- C03.9
     rep.rule("C03.9", "parseAfterValidation delegates a value to a member only if validate() sent it through that member")
     accept_guard_rule(fam, mod, rep, "C03.9")
@@ -484,3 +507,54 @@ def accept_guard_rule(fam, mod, rep, rid):
                            cname, vin, ", ".join(sorted(allowed)) if allowed != set(NULLISH) else ", ".join(sorted(other)), cname, ", ".join(leak), s(c["callee"])),
                        mod.loc(c), sample={"class": cname, "accepted_without_member": sorted(allowed), "reaching_member_parse": sorted(p_allowed)})
     rep.floor(rid, "accept-without-delegation guards matched with a delegating parse", n, 1)
+
+
+def null_deref_rule(fam, mod, rep, rid, methods=("validate", "reportDecodeError")):
+    """validate() and reportDecodeError() receive ANY value.  Reading a property of it (`input.x`, `input[k]`),
+    `k in input`, `Object.keys(input)`, `for (.. of input)` throw a TypeError for null / undefined (and `in` for every
+    primitive), so each such use must lie under guards that exclude them: `input == null` known false,
+    `typeof input === "object"` together with a null test, `Array.isArray(input)`, `input instanceof C`.
+    Decided with ts_common.known_atoms (enclosing tests and earlier guards that leave, De Morgan decomposed), nullness
+    tests evaluated over {undefined, null, other}."""
+    n = 0
+    for cname in sorted(fam.concrete()):
+        for mname in methods:
+            _, m = fam.resolve_method(cname, mname)
+            if not m or m["function"].get("body") is None:
+                continue
+            fn = m["function"]
+            ps = ts_common.fn_params(fn)
+            if len(ps) < 2 or not ps[1]:
+                continue
+            inp = ps[1]
+            uses = []
+            for x in walk(fn):
+                t = x["type"]
+                if t == "MemberExpression" and unparen(x["object"]).get("type") == "Identifier" and unparen(x["object"])["value"] == inp:
+                    uses.append((x, "property read %s" % s(x)[:30]))
+                elif t == "BinaryExpression" and x["operator"] == "in" and unparen(x["right"]).get("type") == "Identifier" and unparen(x["right"])["value"] == inp:
+                    uses.append((x, "`in` test"))
+                elif t == "CallExpression" and s(x["callee"]) in ("Object.keys", "Object.entries", "Object.values", "Object.getOwnPropertyNames") and x["arguments"] \
+                        and unparen(x["arguments"][0]["expression"]).get("type") == "Identifier" and unparen(x["arguments"][0]["expression"])["value"] == inp:
+                    uses.append((x, s(x["callee"])))
+                elif t == "ForOfStatement" and unparen(x["right"]).get("type") == "Identifier" and unparen(x["right"])["value"] == inp:
+                    uses.append((x["right"], "for..of"))
+            for node, what in uses:
+                n += 1
+                allowed, other = _allowed(fn, node, inp)
+                ok = not (allowed & {"undefined", "null"})
+                if not ok:
+                    for a_, v_ in other.items():
+                        a2 = a_.replace("(", "").replace(")", "").replace(" ", "")
+                        if v_ is True and (a2 == "Array.isArray%s" % inp or a2.startswith(inp + "instanceof") or a_.startswith("Array.isArray(" + inp)):
+                            ok = True
+                        if v_ is True and re.match(r"^typeof%s===?.object.$" % re.escape(inp), a2) and "null" not in allowed:
+                            ok = True
+                        if v_ is False and re.match(r"^typeof%s!==?.object.$" % re.escape(inp), a2) and "null" not in allowed:
+                            ok = True
+                        if v_ is True and (" instanceof " in a_ and a_.split(" instanceof ")[0].strip("( ") == inp):
+                            ok = True
+                rep.ob(rid, "%s.%s/%s" % (cname, mname, what), ok,
+                       "%s.%s uses its input (%s) where it may still be %s: the method throws a TypeError for that value instead of answering" % (cname, mname, what, " or ".join(sorted(allowed & {"undefined", "null"})) or "a primitive"),
+                       mod.loc(node), sample={"class": cname, "method": mname, "use": what, "input_may_be": sorted(allowed)})
+    rep.floor(rid, "uses of the raw input that need a nullness guard", n, 10)
